@@ -390,3 +390,49 @@ func codedArg(ci *core.CallInfo) ssa.Value {
 	}
 	return nil
 }
+
+// ---------------------------------------------------------------------------
+// R83: API-level errors are answered in the JSON envelope.
+//
+// C20: "an HTTP status with an error body, JSON for API-level errors".  Inside the
+// request handlers (everything reached from (*GcsEmu).Handler and BatchHandler)
+// an error response is produced by gapiError, which writes the JSON error
+// envelope clients parse.  A handler that calls net/http.Error / http.NotFound
+// (text/plain) — typically in a newly added branch — answers with a body the
+// client libraries cannot decode.  The transport-level wrappers outside the
+// handlers (gzip decoding) are not API-level and are not in scope.
+// Expected-zero rule; its positive example lives in mutants.json.
+// ---------------------------------------------------------------------------
+
+func R83() Rule {
+	return Rule{Name: "R83", Run: func(c *core.Ctx) {
+		P := c.P
+		if P.SPkgs[core.PkgGcsemu] == nil {
+			return
+		}
+		n, nBad := 0, 0
+		for _, rootName := range []string{"(*GcsEmu).Handler", "(*GcsEmu).BatchHandler"} {
+			root := P.MustFunc(core.PkgGcsemu, rootName)
+			c.Fn(rootName)
+			for _, f := range P.Scope(root, func(f *ssa.Function) bool { return core.PkgPathOf(f) != core.PkgGcsemu }) {
+				// the envelope primitives themselves: their only plain-text answer is for a failure to encode or
+				// write the JSON body (the transport is gone; nothing API-level is left to report)
+				if fname := core.FuncName(core.Root(f)); fname == "(*GcsEmu).jsonRespond" || fname == "(*GcsEmu).gapiError" {
+					continue
+				}
+				n++
+				k := 0
+				for _, ci := range core.AllCalls(f) {
+					if ci.IsFunc("net/http", "Error") || ci.IsFunc("net/http", "NotFound") {
+						nBad++
+						k++
+						c.Bad("R83", fmt.Sprintf("%s/plain-text-error#%d", core.FuncName(core.Root(f)), k), ci.Instr.Pos(), "an API-level error is answered with net/http.%s (text/plain) instead of the JSON error envelope written by gapiError: client libraries cannot decode the error", ci.Static.Name())
+					}
+				}
+			}
+		}
+		if nBad == 0 {
+			c.Ok("R83", "handlers/no-plain-text-errors", token.NoPos, false, "no function reached from the two request handlers (%d) answers with net/http.Error or http.NotFound", n)
+		}
+	}}
+}
